@@ -145,6 +145,17 @@ def gen_case(tp, tier):
                         tp.choice([None] * 10 + ['free', 'disable',
                                                  'raise'])])
             nresp += 1
+            if tp.draw(10) == 0 and nresp < 10:
+                # two plain responders on one path, the first of which frees
+                # or disables the second when it runs: the second one is not
+                # invoked with that message any more
+                kind2 = ops[-1][2]
+                ops[-1][4:9] = [None, None, None, False,
+                                [tp.choice(['free_other', 'disable_other']),
+                                 nresp]]
+                ops.append(['new', nresp, kind2, path, None, None, None,
+                            False, None])
+                nresp += 1
         elif r < 70:
             pk = gen_packet(tp, ctr, used)
             mut = gen_mut(tp)
@@ -458,6 +469,8 @@ class Registry:
             self.free(rid)
         elif r.selfact == 'disable':
             self.disable(rid)
+        elif isinstance(r.selfact, list) and r.selfact[1] in self.resp:
+            getattr(self, r.selfact[0].split('_')[0])(r.selfact[1])
 
 
 # ------------------------------------------------------------ execution
@@ -529,6 +542,10 @@ def run_case(case, tape, ctx):
                     robj[rid].free()
                 elif r.selfact == 'disable':
                     robj[rid].disable()
+            if r is not None and isinstance(r.selfact, list) \
+                    and not r.oneshot and r.selfact[1] in robj:
+                getattr(robj[r.selfact[1]], r.selfact[0].split('_')[0])()
+                bump('responder-' + r.selfact[0])
             if r is not None and r.selfact == 'raise':
                 bump('responder-raised')
                 raise RespError(f'responder {rid}')
@@ -701,6 +718,11 @@ def run_case(case, tape, ctx):
                 # dispatcher and path they must come in registration order
                 pos_in_group = {}
                 for rid, grp in exp:
+                    if reg.resp[rid].freed or not reg.resp[rid].enabled:
+                        # freed / disabled by a responder that ran before it
+                        # with this very message: never invoked
+                        bump('removed-by-an-earlier-responder')
+                        continue
                     hit = None
                     for exact in (True, False):
                         for g in mine:
